@@ -520,3 +520,92 @@ Proof.
       rewrite <- Ev. apply in_map_iff. exists kv0. auto. }
   apply (G [] []); auto.
 Qed.
+
+(** ------------------------------------------------------------------ the name says what the gate is *)
+
+(** the standard operations that have an OpenQASM name in qib.util.const *)
+Inductive kind :=
+| K1 (k : g1) | KR (k : r1) | KU | KSwapI
+| KCX | KCY | KCZ | KCH | KCS | KCSdg | KCR (k : r1) | KCCX
+| KMeas | KBarr | KDel.
+
+(** what a circuit element *is*: controlled operations count as the standard controlled gate only
+    when the control state is all ones ([std] = true); user-defined gates ([Raw]) and gates without
+    OpenQASM form denote no standard operation *)
+Definition kind_of (g : gate) : option kind :=
+  match g with
+  | Plain k _ => Some (K1 k)
+  | Rot k _ _ => Some (KR k)
+  | U3 _ _ _ _ => Some KU
+  | ISwap _ _ => Some KSwapI
+  | Ctrl [_] true (Plain KX _) => Some KCX
+  | Ctrl [_] true (Plain KY _) => Some KCY
+  | Ctrl [_] true (Plain KZ _) => Some KCZ
+  | Ctrl [_] true (Plain KH _) => Some KCH
+  | Ctrl [_] true (Plain KS _) => Some KCS
+  | Ctrl [_] true (Plain KSdg _) => Some KCSdg
+  | Ctrl [_] true (Rot k _ _) => Some (KCR k)
+  | Ctrl [_; _] true (Plain KX _) => Some KCCX
+  | Measure _ _ => Some KMeas
+  | Barrier _ => Some KBarr
+  | Delay _ _ => Some KDel
+  | _ => None
+  end.
+
+Definition name_of_kind (k : kind) : str :=
+  match k with
+  | K1 k => g1_name k | KR k => r1_name k | KU => n_u3 | KSwapI => n_iswap
+  | KCX => n_cx | KCY => n_cy | KCZ => n_cz | KCH => n_ch | KCS => n_cs | KCSdg => n_csdg
+  | KCR k => cr1_name k | KCCX => n_ccx
+  | KMeas => n_measure | KBarr => n_barrier | KDel => n_delay
+  end.
+
+Lemma name_of_kind_inj k k' : name_of_kind k = name_of_kind k' -> k = k'.
+Proof.
+  destruct k as [a|a| | | | | | | | |a| | | |], k' as [b|b| | | | | | | | |b| | | |];
+    try destruct a; try destruct b; try reflexivity; intros H; vm_compute in H; discriminate H.
+Qed.
+
+(** every controlled operation of the instruction is controlled on |1...1> *)
+Fixpoint all_std (g : gate) : bool :=
+  match g with Ctrl _ std t => std && all_std t | _ => true end.
+Definition is_raw (g : gate) : bool := match g with Raw _ _ _ => true | _ => false end.
+
+(** a serialised library instruction whose controls are all standard carries the OpenQASM name of
+    the operation it is; hence two such instructions with the same name are the same operation *)
+Theorem as_qasm_name V g q :
+  as_qasm V g = QOk q -> is_raw g = false -> all_std g = true ->
+  exists k, kind_of g = Some k /\ q_name q = name_of_kind k.
+Proof.
+  destruct g; cbn [as_qasm is_raw all_std]; unfold mkq; try discriminate;
+    try (intros E _ _; injection E as <-; eexists; split; reflexivity).
+  - (* Ctrl *)
+    intros E _ S. apply andb_true_iff in S as [-> _]. rewrite andb_false_r in E.
+    destruct cs as [|c [|c2 [|c3 cs]]]; try discriminate.
+    + destruct g; try discriminate; try (destruct k; try discriminate);
+        injection E as <-; eexists; split; reflexivity.
+    + destruct g; try discriminate; try (destruct k; try discriminate);
+        injection E as <-; eexists; split; reflexivity.
+  - (* Measure *)
+    destruct qs; [discriminate|]. intros E _ _. injection E as <-. eexists; split; reflexivity.
+Qed.
+
+Theorem same_name_same_operation V g g' q q' :
+  as_qasm V g = QOk q -> as_qasm V g' = QOk q' ->
+  is_raw g = false -> is_raw g' = false -> all_std g = true -> all_std g' = true ->
+  q_name q = q_name q' -> kind_of g = kind_of g' /\ kind_of g <> None.
+Proof.
+  intros E E' R R' S S' N.
+  destruct (as_qasm_name V g q E R S) as [k [K Hn]]. destruct (as_qasm_name V g' q' E' R' S') as [k' [K' Hn']].
+  rewrite K, K'. split; [|discriminate]. f_equal. apply name_of_kind_inj. congruence.
+Qed.
+
+(** if ControlledGate.as_qasm itself refuses non-standard control states, the guard is automatic *)
+Lemma checked_all_std V g q :
+  vt_ctrl_std_checked V = true -> as_qasm V g = QOk q -> all_std g = true.
+Proof.
+  intros C. destruct g; cbn [as_qasm all_std]; try reflexivity.
+  rewrite C. destruct std; cbn [negb andb]; [|discriminate].
+  destruct cs as [|c [|c2 [|c3 cs]]]; try discriminate;
+    destruct g; try discriminate; reflexivity.
+Qed.
